@@ -1,7 +1,7 @@
 SPECIFICATION Spec
 CONSTANTS Feeds <- MCFeeds
  OpReads = 2
- Protocol = "v1"
+ Protocol = "v2"
 INVARIANT NoPanic
-PROPERTIES CloseReturns NoLeak TransportClosed
+PROPERTIES CloseReturns NoLeak TransportClosed OpEnds
 CHECK_DEADLOCK FALSE
